@@ -112,7 +112,7 @@ def run_scenario(sc, observe="all"):
     tmp = tempfile.mkdtemp(prefix="verif_sim_")
     rec = Recorder()
     saved_cfg = {k: getattr(config, k) for k in ("place_latency", "cancel_latency", "update_latency", "replace_latency",
-                                                   "simulated_strategy_isolation", "raise_errors", "simulation_available_prices", "simulated")}
+                                                   "simulated_strategy_isolation", "raise_errors", "simulation_available_prices", "simulated", "async_place_orders")}
     try:
         cfg = sc.get("config", {})
         for k in ("place_latency", "cancel_latency", "update_latency", "replace_latency"):
@@ -120,6 +120,7 @@ def run_scenario(sc, observe="all"):
                 setattr(config, k, cfg[k])
         config.simulated_strategy_isolation = cfg.get("isolation", True)
         config.raise_errors = cfg.get("raise_errors", False)
+        config.async_place_orders = cfg.get("async_place", False)
         paths = [write_market(tmp, m) for m in sc["markets"]]
         cls = []
         for c in sc["clients"]:
